@@ -55,8 +55,8 @@ using DbT = unodb::mutex_db<KeyT, unodb::value_view>;
 
 constexpr int kMaxThreads = 8;
 
-enum OpKind : std::uint8_t { INS, REM, GET, EMPTY, CLEAR, SCAN };
-static const char* const kOpNames[] = {"ins", "rem", "get", "empty", "clear", "scan"};
+enum OpKind : std::uint8_t { INS, REM, GET, EMPTY, CLEAR, SCAN, LEAVES };
+static const char* const kOpNames[] = {"ins", "rem", "get", "empty", "clear", "scan", "leaves"};
 enum EvKind : std::uint8_t { E_CALL, E_RET, E_HOLD, E_DROP };
 
 // ------------------------------------------------------------------ plan (generated from the seed)
@@ -85,6 +85,7 @@ struct Event {
   bool res = false;
   bool owns = false;
   bool has_val = false;
+  long long n = 0;                 // leaves: the reported leaf count
   std::vector<int> val;            // value bytes (ins argument, get result, re-read)
   std::vector<int> ks;             // scan: key ids in visiting order
   std::vector<std::vector<int>> vs;  // scan: values in visiting order
@@ -116,7 +117,7 @@ static void crash_handler(int sig) {
   const int t = tl_thread;
   const int op = (t >= 0 && t <= kMaxThreads) ? g_cur_op[static_cast<std::size_t>(t)].load() : -1;
   const int n = std::snprintf(buf, sizeof buf, "CRASH sig=%d run=%d thread=%d op=%s\n", sig, g_run.load(), t,
-                              op >= 0 && op <= SCAN ? kOpNames[op] : "none");
+                              op >= 0 && op <= LEAVES ? kOpNames[op] : "none");
   if (n > 0) (void)!write(2, buf, static_cast<std::size_t>(n));
   _exit(70);
 }
@@ -174,7 +175,7 @@ static KeyT make_key(const Run& r, int id) {
 
 static Delay gen_delay(vh::Rng& rng, int profile, bool in_hold) {
   Delay d;
-  if (profile == 2 && !in_hold) return d;
+  if ((profile == 2 || profile == 3) && !in_hold) return d;  // tight loops
   const auto c = rng.below(100);
   if (in_hold) {
     // the hold phase must be long enough for another thread to complete whole
@@ -212,7 +213,8 @@ static void generate(Run& r, std::uint64_t seed, long run_no, int fixed_threads,
   static const int nks[] = {4, 4, 4, 5, 6, 8, 12, 16};
   r.nk = nks[rng.below(8)];
   r.profile = static_cast<int>(rng.below(10));
-  r.profile = r.profile < 5 ? 0 : r.profile < 9 ? 1 : 2;
+  // 0 mix, 1 hammer, 2 tight, 3 stats (observers of the statistics against builders / clearers)
+  r.profile = r.profile < 4 ? 0 : r.profile < 7 ? 1 : r.profile < 8 ? 2 : 3;
   int total = fixed_calls > 0 ? fixed_calls : 20 + static_cast<int>(rng.below(41));
   // keys: ascending with the id; several layouts so that the tree has different shapes
   std::vector<std::uint64_t> ks;
@@ -253,18 +255,31 @@ static void generate(Run& r, std::uint64_t seed, long run_no, int fixed_threads,
     // remove it and insert it again with another value
     const bool reader = r.profile == 1 && (t % 2 == 1);
     const bool writer = r.profile == 1 && !reader;
+    // stats profile: ONE builder (thread 2) that fills the index and clears it again, everybody else observes:
+    // with no other mutator pending, a count from the middle of the builder's bookkeeping has no explanation
+    const bool builder = r.profile == 3 && t == 2;
+    const bool observer = r.profile == 3 && !builder;
     unsigned counter = 0;
-    for (int i = 0; i < per_thread; ++i) {
+    const int my_calls = builder ? 16 : observer ? 10 : per_thread;
+    for (int i = 0; i < my_calls; ++i) {
       Op op;
       const auto c = tr.below(100);
-      if (reader)
-        op.kind = c < 60 ? GET : c < 72 ? INS : c < 82 ? REM : c < 90 ? EMPTY : c < 97 ? SCAN : CLEAR;
+      if (observer)
+        op.kind = c < 70 ? LEAVES : c < 88 ? EMPTY : GET;
+      else if (builder)
+        op.kind = (i % 8) < 6 ? INS : (i % 8) == 6 ? (c < 50 ? REM : INS) : CLEAR;
+      else if (reader)
+        op.kind = c < 56 ? GET : c < 68 ? INS : c < 78 ? REM : c < 84 ? EMPTY : c < 90 ? LEAVES : c < 97 ? SCAN : CLEAR;
       else if (writer)
-        op.kind = c < 42 ? INS : c < 80 ? REM : c < 90 ? GET : c < 94 ? EMPTY : c < 98 ? SCAN : CLEAR;
+        op.kind = c < 42 ? INS : c < 78 ? REM : c < 87 ? GET : c < 90 ? EMPTY : c < 94 ? LEAVES : c < 97 ? SCAN : CLEAR;
       else
-        op.kind = c < 32 ? INS : c < 56 ? REM : c < 84 ? GET : c < 90 ? EMPTY : c < 97 ? SCAN : CLEAR;
+        op.kind = c < 32 ? INS : c < 54 ? REM : c < 78 ? GET : c < 83 ? EMPTY : c < 90 ? LEAVES : c < 96 ? SCAN : CLEAR;
       const auto kc = tr.below(100);
-      if (r.profile == 1)
+      if (builder)
+        op.k = (i * 5 + static_cast<int>(tr.below(2))) % r.nk;   // mostly distinct keys: clear() has work to do
+      else if (r.profile == 3)
+        op.k = static_cast<int>(tr.below(static_cast<std::uint64_t>(r.nk)));
+      else if (r.profile == 1)
         op.k = kc < 70 ? hot : kc < 85 ? hot2 : static_cast<int>(tr.below(static_cast<std::uint64_t>(r.nk)));
       else
         op.k = kc < 35 ? hot : static_cast<int>(tr.below(static_cast<std::uint64_t>(r.nk)));
@@ -280,6 +295,12 @@ static void generate(Run& r, std::uint64_t seed, long run_no, int fixed_threads,
       }
       op.fwd = tr.chance(70);
       op.before = gen_delay(tr, r.profile, false);
+      if (observer) {
+        // spread the observations over the builder's lifetime (its critical sections are held open for up to
+        // 300 us per heap event)
+        op.before.kind = 3;
+        op.before.n = static_cast<std::uint16_t>(40 + tr.below(500));
+      }
       op.nreads = 2 + static_cast<int>(tr.below(3));
       for (auto& d : op.hold) d = gen_delay(tr, r.profile, true);
       plan.push_back(std::move(op));
@@ -287,8 +308,39 @@ static void generate(Run& r, std::uint64_t seed, long run_no, int fixed_threads,
   }
 }
 
+// Timing perturbation INSIDE the index's critical sections: the heap notifications (allocate / free) fire
+// while a mutator is in the middle of its bookkeeping (clear() un-counting leaves one by one, a growing
+// insert with the new node counted and the old one not yet un-counted); a short pause there lets the
+// other threads run into that window -- where they must be waiting for the mutex.
+static std::atomic<std::uint64_t> g_calls_completed{0};
+static std::atomic<int> g_perturb_cs{0};   // 0 off, 1 light, 2 heavy (profile "stats")
+static thread_local std::uint64_t tl_hook_rng = 0x9E3779B97F4A7C15ULL;
+static void heap_hook(unodb::verif::ev e, const void*, std::uint64_t) noexcept {
+  if (e != unodb::verif::ev::H_ALLOC && e != unodb::verif::ev::H_FREE) return;
+  const int level = g_perturb_cs.load(std::memory_order_relaxed);
+  if (level == 0 || tl_thread == 0) return;
+  tl_hook_rng ^= tl_hook_rng << 13;
+  tl_hook_rng ^= tl_hook_rng >> 7;
+  tl_hook_rng ^= tl_hook_rng << 17;
+  const auto c = tl_hook_rng % 16;
+  if (level == 2 && c < 8) {
+    // profile "stats": hold the critical section open until some other thread has completed a whole call
+    // (it cannot, if that call waits for the mutex as it must) or 300 us have passed
+    const auto seen = g_calls_completed.load(std::memory_order_acquire);
+    const auto t0 = std::chrono::steady_clock::now();
+    while (g_calls_completed.load(std::memory_order_acquire) == seen &&
+           std::chrono::steady_clock::now() - t0 < std::chrono::microseconds(300))
+      std::this_thread::yield();
+  } else if (level == 1 && c == 3) {
+    std::this_thread::sleep_for(std::chrono::microseconds(20 + (tl_hook_rng >> 20) % 120));
+  } else if (c >= 13) {
+    std::this_thread::yield();
+  }
+}
+
 static void worker(DbT* db, Run* run, int t) {
   tl_thread = t;
+  tl_hook_rng = 0x9E3779B97F4A7C15ULL * static_cast<std::uint64_t>(t + 1) + static_cast<std::uint64_t>(g_run.load()) * 1000003ULL;
   auto& log = run->log[static_cast<std::size_t>(t)];
   const auto& plan = run->plan[static_cast<std::size_t>(t)];
   auto& cur = g_cur_op[static_cast<std::size_t>(t)];
@@ -336,6 +388,17 @@ static void worker(DbT* db, Run* run, int t) {
         const bool res = db->empty();
         r.seq = stamp();
         r.res = res;
+        log.push_back(std::move(c));
+        log.push_back(std::move(r));
+        break;
+      }
+      case LEAVES: {
+        // a statistics getter: must report the number of entries of some moment at which it owned the mutex
+        c.seq = stamp();
+        const auto n = db->template get_node_count<unodb::node_type::LEAF>();
+        r.seq = stamp();
+        r.res = true;
+        r.n = static_cast<long long>(n);
         log.push_back(std::move(c));
         log.push_back(std::move(r));
         break;
@@ -403,6 +466,7 @@ static void worker(DbT* db, Run* run, int t) {
     }
     cur.store(-1, std::memory_order_relaxed);
     g_ncalls[static_cast<std::size_t>(t)].fetch_add(1, std::memory_order_relaxed);
+    g_calls_completed.fetch_add(1, std::memory_order_release);
   }
   g_done.fetch_add(1);
 }
@@ -423,6 +487,7 @@ static void write_event(vh::Json& out, const Event& e) {
         if (e.has_val) out.nums("val", e.val);
         out.boolean("owns", e.owns);
       }
+      if (e.op == LEAVES) out.num("n", e.n);
       if (e.op == SCAN) {
         out.nums("ks", e.ks);
         std::string s = "[";
@@ -477,6 +542,7 @@ int main(int argc, char** argv) {
   std::signal(SIGBUS, crash_handler);
   std::signal(SIGFPE, crash_handler);
   std::signal(SIGILL, crash_handler);
+  unodb::verif::g_hook.store(heap_hook);
   vh::Json out(f);
   out.begin("init").str("db", "mutex").str("key", kKeyName);
 #ifdef NDEBUG
@@ -486,7 +552,7 @@ int main(int argc, char** argv) {
 #endif
   out.num("seed", static_cast<long long>(seed & 0x7FFFFFFF)).end();
   out.flush();  // a crash handler cannot flush: keep the file well-formed at every point
-  static const char* const profiles[] = {"mix", "hammer", "tight"};
+  static const char* const profiles[] = {"mix", "hammer", "tight", "stats"};
   for (long rn = first_run; rn < first_run + runs; ++rn) {
     auto run = std::make_unique<Run>();
     generate(*run, seed, rn, threads, calls);
@@ -496,6 +562,8 @@ int main(int argc, char** argv) {
       g_ncalls[static_cast<std::size_t>(t)].store(0);
     }
     g_run.store(static_cast<int>(rn));
+    // every second run pauses inside the critical sections (heap notifications)
+    g_perturb_cs.store(run->profile == 3 ? 2 : rn % 2 == 1 ? 1 : 0);
     g_seq.store(1);
     g_ready.store(0);
     g_done.store(0);
